@@ -101,7 +101,7 @@ PROPS["C07"] = dict(
             dict(files=[], inject=[dict(file="contracts/C07/c07_archive_native.rs", into="src/components/archive.rs")],
                  harnesses={"c07_native_archive_histories": dict(anchor="ElitistArchive::update (histories)",
                             bound="BOUNDED STAND-IN, native exhaustive enumeration: all 3-update histories with populations of 0..2 individuals, objective values in {1,2,3}, capacities 0..4 (10985 histories)")})],
-    min_obligations={"quick": 86, "thorough": 86},
+    min_obligations={"quick": 87, "thorough": 87},
     uncovered=["whole-run clause 'reported best = minimum returned' (placement of updates in templates)"],
     assumptions=["SingleObjective order laws (preamble/objective.rs) = C09 obligations"],
 )
@@ -137,10 +137,12 @@ PROPS["C16"] = dict(
     native=[dict(files=["contracts/C07/whole_run_native.rs"],
                  harnesses={"c16_native_whole_runs": dict(anchor="whole runs of the shipped templates (completion, iterations, stack, size)",
                             bound=B + "runs without error, performs exactly the requested iterations, one population at the end, prescribed population size"),
+                            "c16_native_stack_per_pass": dict(anchor="shipped templates: population-stack height at every loop test",
+                            bound="BOUNDED STAND-IN, native run: 19 shipped templates + 36 corner parameter sets x 3 seeds x 6 iterations, the termination condition wrapped in a probe recording the stack height at each test"),
                             "c16_native_parameter_corners": dict(anchor="shipped real-valued templates at the edges of their parameter ranges",
                             bound="BOUNDED STAND-IN, native run: 36 parameter sets accepted by the constructors (one individual, selection size = population size, probabilities 0 and 1, lambda < mu, population = 2y for DE, ...) x 4 seeds x 6 iterations on two problem instances")})],
-    min_obligations={"quick": 10, "thorough": 10},
-    uncovered=["per-pass stack height (only the end of the run is observed)", "the two ACO templates", "other problem instances and parameter sets than the ones run"],
+    min_obligations={"quick": 12, "thorough": 12},
+    uncovered=["the two ACO templates", "other problem instances and parameter sets than the ones run"],
     assumptions=["abstract-children mirror of Component/Condition; value-state mirror (C01/C02 contracts)"],
 )
 
@@ -400,7 +402,7 @@ PROPS["C17"] = dict(
                             bound="BOUNDED STAND-IN, native grid: 10x10 objective pairs (incl. equal, 1 ulp apart, +inf) x 8 temperatures (1e-300 .. 1e300) x 25 seeds x {2,3} populations; exact rules where exp() is exactly 0 or 1"),
                             "c17_native_acceptance_frequency": dict(anchor="ExponentialAnnealingAcceptance::execute",
                             bound="BOUNDED STAND-IN, native statistics: 11 (margin, temperature) cells x 4000 fixed seeds, acceptance frequency within +-0.05 of exp(-(f_cand - f_cur)/T)")})],
-    min_obligations={"quick": 31, "thorough": 31},
+    min_obligations={"quick": 32, "thorough": 32},
     uncovered=["the acceptance probability itself is not PROVED (floats are uninterpreted in Verus): it is compared statistically, on a grid, by the native stand-in",
                "mapping() driver applying the cooling through lenses"],
     assumptions=["float operations are defined (vstd sub_req/div_req lifted into the precondition)"],
